@@ -59,6 +59,8 @@ func (sp sampleSpec) bytes(n int) []byte {
 		return out
 	case "biased":
 		return gen.Pack(gen.Seq{Family: "biased", N: n * 8, Seed: sp.Seed, F: sp.P}.Expand())
+	case "sticky": // markov chain with stay probability P: too few runs (runs-test Q saturates at exactly 1.0)
+		return gen.Pack(gen.Seq{Family: "markov", N: n * 8, Seed: sp.Seed, F: sp.P}.Expand())
 	case "const":
 		out := make([]byte, n)
 		for i := range out {
@@ -365,8 +367,21 @@ func drawStream(t *rapid.T, wname string, targets []string) streamCase {
 		// P small with Q near 0 or near 1), so that pass counting and the Q histogram interact
 		withFailing := rapid.Bool().Draw(t, "failing_in_bin")
 		failBudget := allowed
+		// a sample whose Q-value for item j saturates at exactly 1.0 (6-sigma excess of zeros for the monobit test, far too few
+		// runs for the runs test) belongs to the top interval [0.9, 1]: place one where the histogram wants a bin-9 sample
+		extreme := (j == 0 || j == 4) && rapid.Bool().Draw(t, "saturated_q")
 		for k, cnt := range h {
 			for i := 0; i < cnt; i++ {
+				if extreme && bins[k] == 9 && i == 0 && failBudget > 0 {
+					sp := sampleSpec{Kind: "biased", Seed: rapid.Uint64().Draw(t, "xseed"), P: 0.46}
+					if j == 4 {
+						sp = sampleSpec{Kind: "sticky", Seed: rapid.Uint64().Draw(t, "xseed"), P: 0.56}
+					}
+					specs = append(specs, sp)
+					failBudget--
+					extreme = false
+					continue
+				}
 				if withFailing && i == 0 && failBudget > 0 && len(p.failByBin[j][bins[k]]) > 0 {
 					specs = append(specs, pick(t, p, p.failByBin[j][bins[k]], "failbin"))
 					failBudget--
